@@ -45,7 +45,7 @@ def one_case(rng, tier):
 
 
 def generate(rng, tier):
-    n = 1500 if tier == "quick" else 30000
+    n = 4000 if tier == "quick" else 40000
     cases = [one_case(rng, tier) for _ in range(n)]
     # the D2 shape: a set that starts in a gap and ends inside the next interval
     cases += ["range 10 20 ; range 30 40 ; union 0 1 ; setder 2 25 35 ; setder 2 21 29 ; setder 2 15 25 ; setder 2 10 20 ; setder 2 0 9 ; setder 2 41 196607 ; setder 2 29 30"]
